@@ -109,6 +109,20 @@ def generate(seed, tier, idx=0):
             else:
                 payload = rng.choice([1, "x", [1, 2], 2.5, (1,)])
             probes.append([m, payload, rng.random() < 0.75, rng.random() < 0.3])
+            if isinstance(payload, dict) and rng.random() < 0.3:
+                # a producer that reuses one payload dict: the SAME object, changed
+                # in place, is used for the same event type again
+                keys = sorted(payload)
+                how = rng.choice(["del", "set", "add", "none"])
+                if how == "del" and keys:
+                    mut = ["del", rng.choice(keys)]
+                elif how == "set" and keys:
+                    mut = ["set", rng.choice(keys), rng.choice(VALUES)]
+                elif how == "add":
+                    mut = ["set", "extra2", 1]
+                else:
+                    mut = ["none"]
+                probes.append([m, mut, rng.random() < 0.85, rng.random() < 0.3, "reuse"])
         return {"kind": "metadata", "probes": probes}
     n_types = rng.randint(2, 4)
     n_list = rng.randint(2, 5)
@@ -329,7 +343,20 @@ class RefWorld:
 
 
 def check_metadata(case):
-    for m, payload, check, timed in case["probes"]:
+    import copy
+    prev = None
+    for probe in copy.deepcopy(case["probes"]):      # (payloads are changed in place below)
+        m, payload, check, timed = probe[:4]
+        if len(probe) > 4:
+            # the previous payload object itself, changed in place
+            if not isinstance(prev, dict):
+                continue
+            if payload[0] == "del":
+                prev.pop(payload[1], None)
+            elif payload[0] == "set":
+                prev[payload[1]] = payload[2]
+            payload = prev
+        prev = payload
         decl = DECLS[m]
         if not isinstance(payload, dict):
             exp = False
